@@ -9,7 +9,9 @@ package main
 // and compared with the unchanged execution (raw bytes, formatted bytes, code tokens) and with the source program.
 
 import (
+	"go/types"
 	"math/rand"
+	"reflect"
 	"strconv"
 	"strings"
 )
@@ -204,6 +206,10 @@ func randomForms(seed int64, nforms, ncb *int) func(n *Node, first bool) string 
 				if n.GoVal != nil && r.Intn(4) == 0 {
 					d = "funcvariant"
 				}
+			case n.K == "tok" && n.T == "id" && n.V != "":
+				if f, has := pkgFuncs[title(n.V)]; has && r.Intn(2) == 0 && reflect.TypeOf(f).NumIn() == 0 && types.Universe.Lookup(n.V) != nil {
+					d = []string{"helper", "helperfunc"}[r.Intn(2)] // helperfunc: as a package function when it is the first item
+				}
 			}
 			if d == "stmt" && r.Intn(2) == 0 {
 				d = "func" // honoured only for the first item of a statement
@@ -213,6 +219,12 @@ func randomForms(seed int64, nforms, ncb *int) func(n *Node, first bool) string 
 				*nforms++
 				*ncb++
 			}
+			if strings.HasPrefix(d, "helper") {
+				*nforms++
+			}
+		}
+		if d == "helperfunc" && !first {
+			return "helper"
 		}
 		if d == "func" {
 			if first {
